@@ -68,6 +68,11 @@ DEFAULT_OFF = {
 }
 
 
+KEYWORDISH = ["passes", "returned", "breaker", "continued", "iffy", "elsewhere", "elifant", "whiled", "fortune", "defcon", "printed", "sleeper", "targeted", "imported",
+              "fromage", "globally", "tryout", "excepted", "notch", "andy", "orbit", "inner", "isle", "withal", "classy", "delta", "asserted", "raised_f", "passive_f", "format_f"]
+KEYWORDISH_HELPERS = ["pass_h", "print_h", "return_h", "for_h", "if_h", "while_h", "def_h", "global_h", "sleep_h", "import_h"]
+
+
 class Gen:
     def __init__(self, draw, profile: Profile):
         self.draw = draw
@@ -677,7 +682,7 @@ class Gen:
 
     # ---------------------------------------------------------------- helpers (functions)
     def helper(self, idx):
-        name = f"h{idx}"
+        name = f"h{idx}" if self.chance(0.8) else f"{self.choice(KEYWORDISH_HELPERS)}{idx}"
         ptypes = [self.choice(["int", "int", "float", "str", "bool"]) for _ in range(self.d(st.integers(0, 3)))]
         ret = self.choice(["int", "int", "float", "str", "bool", None])
         saved_vars, saved_const, saved_cset = dict(self.vars), set(self.readonly), set(self.const)
@@ -762,6 +767,11 @@ class Gen:
         if self.chance(0.5):
             decls.append(("c0", "str", self.str_lit()))
             self.const.add("c0")
+        # identifiers that merely *begin* like a keyword / statement word the line-based parser dispatches on
+        for n in self.d(st.lists(st.sampled_from(KEYWORDISH), max_size=2, unique=True)):
+            t = "float" if n.endswith("_f") else "int"
+            decls.append((n, t, self.float_lit() if t == "float" else self.int_lit()))
+            self.feat("keywordish_name")
         for n, t, v in decls:
             self.vars[n] = t
             nodes.append(("s", f"{n} = {v}"))
@@ -875,7 +885,7 @@ def count_nodes(nodes):
 
 import re as _re
 
-_DECL = _re.compile(r"^(from |mon = |led = |[iwfsbclmnr]\d = |[nr]\d, [nr]\d = )")
+_DECL = _re.compile(r"^(from |mon = |led = |[iwfsbclmnr]\d = |[nr]\d, [nr]\d = |(?:" + "|".join(KEYWORDISH) + r") = )")
 
 
 def is_decl(node):
